@@ -3,7 +3,7 @@
    and the part that does hold of the number image. *)
 From Coq Require Import List NArith ZArith Bool.
 Import ListNotations.
-From JB Require Import Constants Bytes Num Value Order CmpKey MiscProofs.
+From JB Require Import Constants Bytes Num Value Order CmpKey MiscProofs KeyProofs.
 Open Scope N_scope.
 
 Theorem C14_refuted_integers_beyond_2p53 :
@@ -31,3 +31,28 @@ Theorem C14_number_image_negatives_first : forall a b, f_sign a = true -> f_sign
   a < 18446744073709551616 -> f64_image a < f64_image b.
 Proof. exact f64_image_neg_below_nonneg. Qed.
 Print Assumptions C14_number_image_negatives_first.
+
+(* What does hold, for every input in the class: on numbers the key order IS Number's order whenever the double
+   view is exact (every double, both infinities, the canonical NaN, both zeros, every integer up to 2^53 and every
+   larger one a double represents), and on scalars of any kinds the byte order of the keys IS compare's order.
+   The two refutations above are exactly the complement: integers a double cannot hold, and container bodies in
+   which a string byte can be read as a depth marker. *)
+Theorem C14_number_order_is_key_order : forall a b, float_ok a -> float_ok b ->
+  num_cmp (NFloat a) (NFloat b) = N.compare (f64_key a) (f64_key b).
+Proof. exact float_order_is_key_order. Qed.
+Print Assumptions C14_number_order_is_key_order.
+
+Theorem C14_scalar_keys_order_as_compare : forall a b, is_scalar a = true -> is_scalar b = true -> key_exact a -> key_exact b ->
+  exists ka kb, comparable_key a = Ok ka /\ comparable_key b = Ok kb /\ bytes_cmp ka kb = cmp_value a b.
+Proof. exact scalar_key_order. Qed.
+Print Assumptions C14_scalar_keys_order_as_compare.
+
+(* the hypotheses are met by an integer, 2^53, a fraction, negative zero and the canonical NaN *)
+Theorem C14_exactness_is_satisfiable :
+  num_key_exact (NInt (-3)) /\ num_key_exact (NUInt 9007199254740992) /\ num_key_exact (NFloat 13837309855095848960) /\
+  num_key_exact (NFloat 9223372036854775808) /\ num_key_exact (NFloat F_NAN).
+Proof. exact key_exact_examples. Qed.
+
+(* after the fix both zeros have one key (before it, -0.0 sorted below 0 although compare calls them equal) *)
+Theorem C14_both_zeros_one_key : f64_key 9223372036854775808 = f64_key 0.
+Proof. reflexivity. Qed.
